@@ -95,7 +95,7 @@ CHECKS = {
  "C14": ("D-end-to-end-driver",
          "exhaustive enumeration of camera descriptions x truncation points on ReadHeaderInfo; exhaustive enumeration of frame/marker arrangements x read segmentations (all single cut points, pairs around markers, one-byte reads) through the real handleConn; static extraction of marker/keys from both daemons",
          "Header: 972 camera descriptions encoded as the camera daemon does, with a sentinel after the blank line, and every truncation point of a subset. Stream: every arrangement of 3 (6 thorough) frames with <=2 'clear' markers at any gap, under greedy reads, one-byte reads, every single cut point of the byte stream and every pair of cut points around header end and markers; resulting files must equal the recordings predicted by driving a real MotionProcessor directly (each frame once, in order, reset at each marker).",
-         "sendCameraSpecs needs camera hardware: its 3-line encoder is reproduced and bound to the source by the static extraction (stage c), which is syntactic, not an exploration. Pairs of cuts away from markers/header end are not enumerated.",
+         "sendCameraSpecs needs camera hardware: its 3-line encoder is reproduced and bound to the source by the static extraction (stage c), which is syntactic, not an exploration. Pairs of cuts away from markers/header end are enumerated for one arrangement only (frame-marker-frame, thorough tier); three or more cuts are covered by the one-byte-read mode only.",
          "DESIGN.md §4 C14"),
  "C16": ("B-controlled-scheduler",
          "stateless exploration of all interleavings up to a preemption bound (iterative context bounding) of the real handleConn and the real request paths under a cooperative scheduler, on syntactically instrumented copies of the sources; vector-clock happens-before race detection on watched locations",
